@@ -93,9 +93,13 @@ def _model_spec(rng, mid):
             spec['ctor']['distribution'] = {'__map__': {
                 'c0': zoo.UNI_FAMILIES[6], 'c1': {'__cls__': zoo.FAST_UNI[2]},
                 'c2': zoo.UNI_FAMILIES[1], 'c3': zoo.FAST_UNI[1]}}
-        else:
+        elif o < 0.9:
             spec['ctor']['distribution'] = {'__inst__': zoo.UNI_WRAPPER, 'ctor': {
                 'candidates': [{'__cls__': zoo.FAST_UNI[0]}, {'__cls__': zoo.FAST_UNI[2]}]}}
+        else:
+            # nested model with a non-default kernel option (scalar bandwidth)
+            spec['ctor']['distribution'] = {'__inst__': zoo.UNI_FAMILIES[3],
+                                            'ctor': {'bw_method': 0.5}}
         if '__map__' not in str(spec['ctor']) and rng.random() < 0.5:
             # column names whose sorted order is not the training order
             d = len(spec['data']['margs'])
